@@ -39,7 +39,8 @@ Record fut := mkFut {
   f_cancel : bool         (* cancel signal sent, not yet looked at *)
 }.
 Record rdr := mkRd { r_peer : N; r_irid : N; r_chan : N }.
-Record rsp := mkRs { s_irid : N; s_chan : N; s_w : option (N * N * N) (* len, tag, deadline *) }.
+Record rsp := mkRs { s_irid : N; s_chan : N; s_w : option (N * N * N) (* len, tag, deadline *);
+                     s_fb : bool (* send_response_with_feedback *) }.
 
 (* protocol state *)
 Record pst := mkP {
@@ -73,6 +74,7 @@ Inductive out :=
 | OFail (rid code : N)                  (* RequestResponseEvent::RequestFailed *)
 | OReq (irid peer len tag : N)          (* RequestResponseEvent::RequestReceived *)
 | OWire (chan len tag : N)              (* a whole frame arrived at the remote end of a carrier *)
+| OFeed (irid : N) (ok : bool)          (* feedback channel of send_response_with_feedback: () / dropped *)
 | OBind (chan rid : N).                 (* ghost (not printed): on_outbound_substream handed carrier
                                            chan to the future of request rid *)
 
@@ -304,7 +306,7 @@ Definition h_inread (s : pst) (c : N) (good : bool) (len tag : N) : pst * list o
     let key := (r_peer r, r_irid r) in
     if memN (r_peer r) (peers s) && memP key (inb s) then
       let s := set_inb s (removeP key (inb s)) in
-      if good then (set_rsps s (rsps s ++ [mkRs (r_irid r) c None]), [OReq (r_irid r) (r_peer r) len tag])
+      if good then (set_rsps s (rsps s ++ [mkRs (r_irid r) c None false]), [OReq (r_irid r) (r_peer r) len tag])
       else (s, [])
     else (s, [])
   end.
@@ -312,21 +314,24 @@ Definition h_inread (s : pst) (c : N) (good : bool) (len tag : N) : pst * list o
 Definition find_rs (irid : N) (l : list rsp) : option rsp := find (fun r => s_irid r =? irid) l.
 Definition drop_rs (irid : N) (l : list rsp) : list rsp := filter (fun r => negb (s_irid r =? irid)) l.
 
-(* send_response: the response future writes the frame (or gives up) *)
-Definition h_uresp (cf : cfg) (s : pst) (irid len tag gate now : N) : pst * list out :=
+(* what the feedback receiver of send_response_with_feedback sees when the response future ends *)
+Definition feed (fb : bool) (irid : N) (ok : bool) : list out := if fb then [OFeed irid ok] else [].
+
+(* send_response / send_response_with_feedback: the response future writes the frame (or gives up) *)
+Definition h_uresp (cf : cfg) (s : pst) (irid len tag : N) (fb : bool) (gate now : N) : pst * list out :=
   match find_rs irid (rsps s) with
   | None => (s, [])
   | Some r =>
     match s_w r with
     | Some _ => (s, [])
     | None =>
-      if max_size cf <? len then (set_rsps s (drop_rs irid (rsps s)), [])
+      if max_size cf <? len then (set_rsps s (drop_rs irid (rsps s)), feed fb irid false)
       else match gate with
            | 0 => (set_rsps s (map (fun x => if s_irid x =? irid
-                                             then mkRs irid (s_chan r) (Some (len, tag, now + tmo cf)) else x)
+                                             then mkRs irid (s_chan r) (Some (len, tag, now + tmo cf)) fb else x)
                                    (rsps s)), [])
-           | 1 => (set_rsps s (drop_rs irid (rsps s)), [OWire (s_chan r) len tag])
-           | _ => (set_rsps s (drop_rs irid (rsps s)), [])
+           | 1 => (set_rsps s (drop_rs irid (rsps s)), OWire (s_chan r) len tag :: feed fb irid true)
+           | _ => (set_rsps s (drop_rs irid (rsps s)), feed fb irid false)
            end
     end
   end.
@@ -341,7 +346,8 @@ Definition rsp_gate (s : pst) (c : N) (ok : bool) : pst * list out :=
   | Some r =>
     match s_w r with
     | Some (len, tag, _) =>
-      (set_rsps s (drop_rs (s_irid r) (rsps s)), if ok then [OWire c len tag] else [])
+      (set_rsps s (drop_rs (s_irid r) (rsps s)),
+       (if ok then [OWire c len tag] else []) ++ feed (s_fb r) (s_irid r) ok)
     | None => (s, [])
     end
   | None => (s, [])
@@ -349,6 +355,11 @@ Definition rsp_gate (s : pst) (c : N) (ok : bool) : pst * list out :=
 
 Definition rsp_advance (s : pst) (now : N) : pst :=
   set_rsps s (filter (fun r => match s_w r with Some (_, _, dl) => negb (dl <=? now) | None => true end) (rsps s)).
+(* the writes that time out drop their feedback sender *)
+Definition rsp_advance_out (s : pst) (now : N) : list out :=
+  flat_map (fun r => match s_w r with
+                     | Some (_, _, dl) => if dl <=? now then feed (s_fb r) (s_irid r) false else []
+                     | None => [] end) (rsps s).
 
 (* ------------------------------------------------------------------ environment *)
 
@@ -395,7 +406,7 @@ Inductive ev :=
 | EAdvance (dt : N)
 | EInOpen (p gate : N)
 | EInReq (k len tag : N)
-| EURespond (k len tag : N)
+| EURespond (k len tag : N) (fb : bool)
 | EUReject (k : N)
 | EBreakConn (p : N).
 
@@ -548,7 +559,7 @@ Definition step (cf : cfg) (st : pst * env) (e : ev) : (pst * env) * list out * 
   | EAdvance dt =>
     let t := now en + dt in
     let '(s1, o) := fut_advance s t in
-    (rsp_advance s1 t, mkE (next_sid en) (conns en) (opens en) (chans en) t (hpend en), o, None)
+    (rsp_advance s1 t, mkE (next_sid en) (conns en) (opens en) (chans en) t (hpend en), o ++ rsp_advance_out s1 t, None)
   | EInOpen p gate =>
     match conn_of p en with
     | None => (s, en, [], None)
@@ -573,7 +584,7 @@ Definition step (cf : cfg) (st : pst * env) (e : ev) : (pst * env) * list out * 
       | None => (s, en, [], None)
       end
     end
-  | EURespond k len tag =>
+  | EURespond k len tag fb =>
     match nth_mod k (hpend en) with
     | None => (s, en, [], None)
     | Some irid =>
@@ -581,7 +592,7 @@ Definition step (cf : cfg) (st : pst * env) (e : ev) : (pst * env) * list out * 
                   | Some r => match nth_error (chans en) (N.to_nat (s_chan r)) with
                               | Some ch => c_gate ch | None => 2 end
                   | None => 2 end in
-      let '(s1, o) := h_uresp cf s irid len tag gate (now en) in
+      let '(s1, o) := h_uresp cf s irid len tag fb gate (now en) in
       (s1, mkE (next_sid en) (conns en) (opens en) (chans en) (now en)
                (filter (fun x => negb (x =? irid)) (hpend en)), o, Some irid)
     end
